@@ -452,3 +452,48 @@ fn c19_unlabelled_element_is_judged_at_the_space_default() {
     kani::cover!(a1.decision.is_permitted(), "readable");
     std::mem::forget((a1, a2, ea, auth, unlabelled, labelled));
 }
+
+// policy statements: empty principal / group / action lists mean "everyone / any action", a listed
+// list must contain the caller; the resource and condition parts reuse scope_matches / conditions_hold
+// @check id=C19 tier=quick cap=900 role=statement_matches
+// @fns governance::decision::EffectiveAuthority::statement_matches, governance::decision::scope_matches, governance::decision::conditions_hold
+// @bound statement principals / groups lists of 0..1 one-byte labels (symbolic), actions [] / [read] / [update]; caller principal id and one group symbolic labels; resource kind bound 0..1 label vs resource kind label; validity window symbolic
+// @stubs alloc::fmt::format -> String::new()
+#[kani::proof]
+#[kani::unwind(8)]
+#[kani::stub(alloc::fmt::format, fmt_stub)]
+fn c19_policy_statement_matches_only_whom_and_what_it_names() {
+    let l01 = || if kani::any() { vec![] } else { vec![lab()] };
+    let act: u8 = kani::any();
+    kani::assume(act < 3);
+    let st = PolicyStatement {
+        effect: "deny".to_string(),
+        principals: l01(),
+        groups: l01(),
+        actions: match act { 0 => vec![], 1 => vec!["read".to_string()], _ => vec!["update".to_string()] },
+        resource: AuthorityScope { kinds: l01(), ..Default::default() },
+        conditions: AuthorityConditions { valid_until: opt_instant(), ..Default::default() },
+        ..Default::default()
+    };
+    let me = lab();
+    let my_group = lab();
+    let mut principal = PrincipalRow::default();
+    principal.principal_id = me.clone();
+    principal.status = status::ACTIVE.to_string();
+    let ea = EffectiveAuthority { space: SpaceRow::default(), principal, groups: vec![my_group.clone()], is_owner: false, policy: None, bindings: Vec::new(), statements: Vec::new(), candidates: Vec::new() };
+    let res = ResourceContext { kind: lab(), ..Default::default() };
+    let mut auth = AuthContext::principal("p");
+    auth.auth_strength = String::new();
+    let now = instant();
+    let got = ea.statement_matches(&st, Permission::Read, &res, &auth, &now);
+    let who = (st.principals.is_empty() || st.principals[0].as_bytes()[0] == me.as_bytes()[0])
+        && (st.groups.is_empty() || st.groups[0].as_bytes()[0] == my_group.as_bytes()[0]);
+    let what = act != 2;
+    let whereto = admits(&st.resource.kinds, &res.kind);
+    let when = st.conditions.valid_until.is_empty() || now.as_str() < st.conditions.valid_until.as_str();
+    assert!(got == (who && what && whereto && when), "a statement applies iff it names the caller (or nobody in particular), the action (or none in particular), a scope containing the resource, and its window is open");
+    kani::cover!(got && !st.principals.is_empty() && !st.groups.is_empty(), "matched by principal and group");
+    kani::cover!(!got && who && what && whereto, "expired statement does not apply");
+    kani::cover!(!got && who && whereto && when, "statement for another action does not apply");
+    std::mem::forget((st, ea, res, auth, now, me, my_group));
+}
